@@ -13,7 +13,7 @@ import ast
 import re
 
 from ..core.tree import AnalysisError
-from ..core.astutil import walk_no_nested, call_name, short, src
+from ..core.astutil import walk_no_nested, call_name, short, src, closure_nodes, resolve_local
 from ..engines import structural as S
 from ..engines.typestate import span_table, check_flat, check_alternation
 from . import c11_tables
@@ -65,11 +65,74 @@ def webvtt_nesting(ctx, report):
                  {"style_order": src(lists[0].value) if lists else None, "reversed_on_close": bool(rev)}, "3")
     cv = ctx.index.get_function(VTT, "WebVTTWriter._convert_caption")
     report.covered(cv)
-    t = src(cv.node)
-    ok = "cue_style_tags[0] += tags[0]" in t and "cue_style_tags[1] = tags[1] + cue_style_tags[1]" in t
-    report.check(ok, "R-ORDER", cv, "cue-level tags: openings appended, closings prepended (proper nesting)", None, "3")
-    ok = "cue_style_tags[0] + cue_text + cue_style_tags[1]" in t
-    report.check(ok, "R-ORDER", cv, "cue text sits between the cue-level opening and closing tags", None, "3")
+    cue_level_nesting(ctx, report, cv)
+
+
+def _flatten_add(e):
+    if isinstance(e, ast.BinOp) and isinstance(e.op, ast.Add):
+        return _flatten_add(e.left) + _flatten_add(e.right)
+    return [e]
+
+
+def cue_level_nesting(ctx, report, cv):
+    """Cue-level style tags: in the routine that turns each style key into its (open, close)
+    pair, the opening is appended to one accumulator and the closing is PREPENDED to another;
+    the cue text is emitted between the two accumulators."""
+    owner = pair = None
+    for f2, n in closure_nodes(ctx.index, cv, (ast.Assign,)):
+        if isinstance(n.value, ast.Call) and (call_name(n.value) or "").endswith("_convert_style_to_text_tag") \
+                and len(n.targets) == 1 and isinstance(n.targets[0], ast.Name) \
+                and f2.name != "_group_cues_by_layout":      # the inline level is judged above
+            if owner is not None:
+                raise AnalysisError("WebVTT cue-level tags: more than one routine builds cue-level tags")
+            owner, pair = f2, n.targets[0].id
+    if owner is None:
+        raise AnalysisError("WebVTT cue-level tags: the (open, close) pair of a style is not bound to a name")
+    report.covered(owner)
+    acc = {}      # index in the pair -> (accumulator text, 'append' | 'prepend')
+    for n in walk_no_nested(owner.node):
+        tgt = val = None
+        if isinstance(n, ast.AugAssign) and isinstance(n.op, ast.Add):
+            tgt, ops = src(n.target), [ast.parse(src(n.target), mode="eval").body] + _flatten_add(n.value)
+        elif isinstance(n, ast.Assign) and len(n.targets) == 1 and isinstance(n.value, ast.BinOp):
+            tgt, ops = src(n.targets[0]), _flatten_add(n.value)
+        else:
+            continue
+        texts = [src(o) for o in ops]
+        for i in (0, 1):
+            if f"{pair}[{i}]" in texts and tgt in texts and len(texts) == 2:
+                acc[i] = (tgt, "append" if texts.index(tgt) == 0 else "prepend")
+    if set(acc) != {0, 1}:
+        raise AnalysisError(f"WebVTT cue-level tags: accumulation of {pair}[0] / {pair}[1] not recognised ({acc})")
+    ok = acc[0][1] == "append" and acc[1][1] == "prepend" and acc[0][0] != acc[1][0]
+    report.check(ok, "R-ORDER", owner, "cue-level tags: openings appended, closings prepended (proper nesting)",
+                 {"opening": acc[0], "closing": acc[1]}, "3")
+    names = [acc[0][0], acc[1][0]]
+    if owner is not cv:
+        rets = [n.value for n in walk_no_nested(owner.node) if isinstance(n, ast.Return) and n.value is not None]
+        if len(rets) != 1 or not isinstance(rets[0], ast.Tuple) or sorted(src(e) for e in rets[0].elts) != sorted(names):
+            raise AnalysisError("WebVTT cue-level tags: the helper does not return its two accumulators")
+        pos = [[src(e) for e in rets[0].elts].index(nm) for nm in names]
+        names = None
+        for n in walk_no_nested(cv.node):
+            if isinstance(n, ast.Assign) and isinstance(n.value, ast.Call) and isinstance(n.targets[0], ast.Tuple) \
+                    and (call_name(n.value) or "").split(".")[-1] == owner.name:
+                el = [src(e) for e in n.targets[0].elts]
+                names = [el[pos[0]], el[pos[1]]]
+        if names is None:
+            raise AnalysisError("WebVTT cue-level tags: the helper's result is not unpacked in _convert_caption")
+    found = None
+    for n in walk_no_nested(cv.node):
+        if isinstance(n, ast.BinOp) and isinstance(n.op, ast.Add):
+            texts = [src(o) for o in _flatten_add(n)]
+            if names[0] in texts and names[1] in texts:
+                found = texts
+                break
+    if found is None:
+        raise AnalysisError("WebVTT cue-level tags: no emission uses both accumulators")
+    i, j = found.index(names[0]), found.index(names[1])
+    report.check(j == i + 2, "R-ORDER", cv, "cue text sits between the cue-level opening and closing tags",
+                 {"emitted": found}, "3")
 
 
 def scc_pipeline(ctx, report):
